@@ -81,14 +81,10 @@ fn type_idx(t: Option<SignType>) -> usize {
     }
 }
 
+//@include shared_spec.rs
+
 const PEND_MAX: usize = 64;
 const DATA_MAX: usize = 255;
-
-/// total_bytes of a page, as documented (not taken from the code)
-fn padded_len(w: u32, h: u32) -> usize {
-    let d = 4 + (w as usize) * ((h as usize + 7) / 8);
-    (d + 15) / 16 * 16
-}
 
 /// An arbitrary sign: any address, flip style, state, recorded type, counter and dimensions; a pending buffer of
 /// any length 0..=64 with the contents of `pend`; 0 or 1 stored page.
@@ -113,17 +109,16 @@ fn any_sign_opt(pend: &[u8; PEND_MAX], with_inv: bool, pend_mode: u8, allow_page
         }
         pages.push(Page::new(PageId(kani::any()), 2, 8));
     }
-    let s = VirtualSign {
-        address: Address(kani::any()),
-        flip_style: if kani::any() { PageFlipStyle::Automatic } else { PageFlipStyle::Manual },
-        state: STATES[si],
-        pages,
-        pending_data: if pend_mode == 0 { Vec::new() } else if pend_mode == 1 { pend[..16].to_vec() } else { pend[..n].to_vec() },
-        data_chunks: kani::any(),
-        width,
-        height,
-        sign_type: if ti < 11 { Some(TYPES[ti]) } else { None },
-    };
+    // built from VirtualSign::new and field assignments (not a struct literal): a field added to VirtualSign by a
+    // later change keeps its initial value and does not break this harness
+    let mut s = VirtualSign::new(Address(kani::any()), if kani::any() { PageFlipStyle::Automatic } else { PageFlipStyle::Manual });
+    s.state = STATES[si];
+    s.pages = pages;
+    s.pending_data = if pend_mode == 0 { Vec::new() } else if pend_mode == 1 { pend[..16].to_vec() } else { pend[..n].to_vec() };
+    s.data_chunks = kani::any();
+    s.width = width;
+    s.height = height;
+    s.sign_type = if ti < 11 { Some(TYPES[ti]) } else { None };
     if with_inv {
         kani::assume(inv(&s));
     }
@@ -132,19 +127,10 @@ fn any_sign_opt(pend: &[u8; PEND_MAX], with_inv: bool, pend_mode: u8, allow_page
 
 /// Inductive invariant used by C13/C14 (proved preserved by every step, and true initially).
 fn inv(s: &VirtualSign<'_>) -> bool {
-    let receiving = s.state == State::ConfigInProgress || s.state == State::PixelsInProgress;
-    // counter hygiene: outside a transfer (and outside the limbo state an abandoned transfer is left in by
-    // StartReset) nothing is counted; bytes are buffered only during a pixel transfer (or in that limbo state)
-    let hygiene = (receiving || s.state == State::ReadyToReset || s.data_chunks == 0)
-        && (s.state == State::PixelsInProgress || s.state == State::ReadyToReset || s.pending_data.is_empty());
-    let blank = s.state != State::Unconfigured
-        || (s.pages.is_empty() && s.pending_data.is_empty() && s.data_chunks == 0 && s.width == 0 && s.height == 0 && s.sign_type.is_none());
+    // state-level conjuncts (counter hygiene, Unconfigured => blank, no pages in the configuration states): snap_inv
+    // plus: a stored page has exactly the configured size
     let pages_ok = s.pages.is_empty() || (s.pages[0].width() == s.width && s.pages[0].height() == s.height && s.pages[0].as_bytes().len() == padded_len(s.width, s.height));
-    // pages only exist once a pixel transfer has been started (the configuration states never hold pages, so a
-    // configuration block can never change the size under stored pages)
-    let config_phase = s.state == State::Unconfigured || s.state == State::ConfigInProgress || s.state == State::ConfigReceived || s.state == State::ConfigFailed;
-    let no_pages_in_config_phase = !config_phase || s.pages.is_empty();
-    hygiene && blank && pages_ok && no_pages_in_config_phase
+    snap_inv(&snap(s)) && pages_ok
 }
 
 /// kind 0..=9; the data of a SendData message is a prefix of `arr`
@@ -219,6 +205,9 @@ fn c12_config_block_arbitrary_fields() {
     let block: [u8; 16] = kani::any();
     let mut sign = VirtualSign::new(Address(kani::any()), PageFlipStyle::Manual);
     sign.state = State::ConfigInProgress;
+    let (w0, h0): (u32, u32) = (kani::any(), kani::any()); // left behind by an earlier configuration attempt
+    sign.width = w0;
+    sign.height = h0;
     let m = match Data::try_new(&block[..]) {
         Ok(d) => Message::SendData(Offset(0), d),
         Err(e) => {
@@ -236,7 +225,7 @@ fn c12_config_block_arbitrary_fields() {
         assert!(sign.width == u32::from(block[7]) && sign.height == u32::from(block[5]));
         assert!(sign.data_chunks == 1);
     } else {
-        assert!(sign.width == 0 && sign.height == 0 && sign.data_chunks == 0 && sign.sign_type.is_none());
+        assert!(sign.width == w0 && sign.height == h0 && sign.data_chunks == 0 && sign.sign_type.is_none());
     }
     kani::cover!(sign.width == 1020, "cov_max_width");
     kani::cover!(sign.sign_type.is_some(), "cov_known_type");
@@ -245,18 +234,6 @@ fn c12_config_block_arbitrary_fields() {
 
 // ------------------------------------------------------------------------------------------ C13
 
-#[derive(Copy, Clone, PartialEq, Eq)]
-struct Snap {
-    address: u16,
-    auto: bool,
-    state: usize,
-    n_pages: usize,
-    pend_len: usize,
-    chunks: u16,
-    width: u32,
-    height: u32,
-    ty: usize,
-}
 fn snap(s: &VirtualSign<'_>) -> Snap {
     Snap {
         address: s.address.0,
@@ -271,12 +248,6 @@ fn snap(s: &VirtualSign<'_>) -> Snap {
     }
 }
 
-#[derive(Copy, Clone, PartialEq, Eq)]
-enum Reply {
-    None,
-    Report(u16, usize),
-    Ack(u16, usize),
-}
 fn reply_of(r: &Option<Message<'_>>) -> Reply {
     match r {
         None => Reply::None,
@@ -296,121 +267,6 @@ fn reply_of(r: &Option<Message<'_>>) -> Reply {
         ),
         Some(_) => Reply::Ack(0xFFFF, 99),
     }
-}
-
-// state indices (see STATES)
-const UNCONF: usize = 0;
-const CFG_PROG: usize = 1;
-const CFG_RECV: usize = 2;
-const CFG_FAIL: usize = 3;
-const PIX_PROG: usize = 4;
-const PIX_RECV: usize = 5;
-const PIX_FAIL: usize = 6;
-const LOADED: usize = 7;
-const LOAD_PROG: usize = 8;
-const SHOWN: usize = 9;
-const SHOW_PROG: usize = 10;
-const SHOWING: usize = 11;
-const READY_RESET: usize = 12;
-
-/// What a flush of the pending buffer does to the number of stored pages (documented behaviour: a buffer that is
-/// exactly one page of the configured size becomes a stored page; anything else is discarded).
-fn flush_pages(s: &Snap) -> usize {
-    if s.pend_len > 0 && s.width > 0 && s.height > 0 && s.pend_len == padded_len(s.width, s.height) {
-        s.n_pages + 1
-    } else {
-        s.n_pages
-    }
-}
-
-/// The sign-side protocol state machine, written from the protocol description (property C13).
-/// `cfg`: for a 16-byte block at offset 0: (family byte, derived width, derived height, decoded type index).
-fn spec_step(s: &Snap, m: &Message<'_>, cfg: (u8, u32, u32, usize)) -> (Snap, Reply) {
-    let mut n = *s;
-    let mine = |a: &Address| a.0 == s.address;
-    match m {
-        Message::Hello(a) | Message::QueryState(a) if mine(a) => {
-            // report the current state; an in-progress load/show completes after being reported once
-            if s.state == LOAD_PROG {
-                n.state = LOADED;
-            } else if s.state == SHOW_PROG {
-                n.state = SHOWN;
-            }
-            (n, Reply::Report(s.address, s.state))
-        }
-        Message::RequestOperation(a, op) if mine(a) => {
-            let (legal, next, code) = match op {
-                Operation::ReceiveConfig => (s.state == UNCONF || s.state == CFG_FAIL, CFG_PROG, 0),
-                Operation::ReceivePixels => (
-                    s.state == CFG_RECV || s.state == PIX_FAIL || s.state == LOADED || s.state == LOAD_PROG || s.state == SHOWN || s.state == SHOW_PROG || s.state == SHOWING,
-                    PIX_PROG,
-                    1,
-                ),
-                Operation::ShowLoadedPage => (s.state == LOADED, SHOW_PROG, 2),
-                Operation::LoadNextPage => (s.state == SHOWN, LOAD_PROG, 3),
-                Operation::StartReset => (true, READY_RESET, 4),
-                Operation::FinishReset => (s.state == READY_RESET, UNCONF, 5),
-                #[allow(unreachable_patterns)]
-                _ => (false, s.state, 99),
-            };
-            if !legal {
-                return (n, Reply::None); // silent and unchanged
-            }
-            n.state = next;
-            if code == 1 {
-                n.n_pages = 0; // a new pixel transfer replaces the stored pages
-            }
-            if code == 5 {
-                n = blank(s);
-            }
-            (n, Reply::Ack(s.address, code))
-        }
-        Message::Goodbye(a) if mine(a) => (blank(s), Reply::None),
-        Message::PixelsComplete(a) if mine(a) => {
-            if s.state == PIX_RECV {
-                n.state = if s.auto { SHOWING } else { LOADED };
-            }
-            (n, Reply::None)
-        }
-        Message::SendData(off, d) => {
-            let len = d.get().len();
-            if s.state == CFG_PROG {
-                if off.0 == 0 && len == 16 && (cfg.0 == 0x04 || cfg.0 == 0x08) {
-                    n.width = cfg.1;
-                    n.height = cfg.2;
-                    n.ty = cfg.3;
-                    n.chunks = s.chunks.wrapping_add(1);
-                }
-            } else if s.state == PIX_PROG {
-                if off.0 == 0 {
-                    // offset 0 starts a new page: what was buffered so far is complete (stored) or malformed (dropped)
-                    n.n_pages = flush_pages(s);
-                    n.pend_len = len;
-                } else {
-                    n.pend_len = s.pend_len + len;
-                }
-                n.chunks = s.chunks.wrapping_add(1);
-            }
-            (n, Reply::None)
-        }
-        Message::DataChunksSent(c) => {
-            if s.state == CFG_PROG {
-                n.state = if c.0 == s.chunks { CFG_RECV } else { CFG_FAIL };
-            } else if s.state == PIX_PROG {
-                n.state = if c.0 == s.chunks { PIX_RECV } else { PIX_FAIL };
-            }
-            if s.state == CFG_PROG || s.state == PIX_PROG {
-                n.n_pages = flush_pages(s);
-                n.pend_len = 0;
-                n.chunks = 0;
-            }
-            (n, Reply::None)
-        }
-        _ => (n, Reply::None),
-    }
-}
-fn blank(s: &Snap) -> Snap {
-    Snap { address: s.address, auto: s.auto, state: UNCONF, n_pages: 0, pend_len: 0, chunks: 0, width: 0, height: 0, ty: 11 }
 }
 
 /// what the documentation says a configuration block means (C19): family, width, height
@@ -583,7 +439,7 @@ fn c14_bus_isolation_modular_4() {
         signs.push(VirtualSign::new(Address(addrs[i]), if kani::any() { PageFlipStyle::Automatic } else { PageFlipStyle::Manual }));
         i += 1;
     }
-    let mut bus = VirtualSignBus { signs };
+    let mut bus = VirtualSignBus::new(signs);
     let m = any_message(&arr);
     let target: Option<u16> = match &m {
         Message::Hello(a) | Message::QueryState(a) | Message::Goodbye(a) | Message::PixelsComplete(a) => Some(a.0),
@@ -650,6 +506,12 @@ fn c19_virtual_sign_derives_dimensions() {
     let t = TYPES[ti];
     let mut sign = VirtualSign::new(Address(kani::any()), PageFlipStyle::Manual);
     sign.state = State::ConfigInProgress;
+    // whatever an earlier (failed / repeated) configuration left behind
+    sign.width = kani::any();
+    sign.height = kani::any();
+    let prev: usize = kani::any();
+    kani::assume(prev < 12);
+    sign.sign_type = if prev < 11 { Some(TYPES[prev]) } else { None };
     let m = match Data::try_new(t.to_bytes()) {
         Ok(d) => Message::SendData(Offset(0), d),
         Err(e) => {
